@@ -72,16 +72,20 @@ def regenerate(res):
     return rc == 0 and rc2 == 0, out + out2
 
 
-def build(mod, exe):
+def build(mods, exe):
     with common.LeanLock():
-        rc, out = sh(['lake', 'build', mod, exe], cwd=LEAN_DIR, timeout=3000)
+        rc, out = sh(['lake', 'build'] + list(mods) + [exe], cwd=LEAN_DIR, timeout=3000)
     return rc == 0, out
 
 
-def audit(mod, thms):
+def audit(mods, thms):
     """forbidden tokens in the import closure + #print axioms of each property theorem"""
     problems = []
-    for m, src in import_closure(mod).items():
+    mod = mods[0]
+    closure = {}
+    for m in mods:
+        import_closure(m, closure)
+    for m, src in closure.items():
         code = strip_comments(src)
         for tok in common.FORBIDDEN:
             if re.search(r'(?<![\w.])' + re.escape(tok.strip()) + r'(?![\w])', code):
@@ -92,7 +96,8 @@ def audit(mod, thms):
     os.makedirs(adir, exist_ok=True)
     f = os.path.join(adir, 'Audit_' + mod.split('.')[-1] + '.lean')
     with open(f, 'w') as fh:
-        fh.write(f'import {mod}\n')
+        for m in mods:
+            fh.write(f'import {m}\n')
         for t in thms:
             fh.write(f'#print axioms {t}\n')
     rc, out = sh(['lake', 'env', 'lean', f], cwd=LEAN_DIR, timeout=1800)
@@ -126,9 +131,12 @@ def local_closure(mod, seen):
     return seen
 
 
-def leanchecker(lean_mod):
+def leanchecker(lean_mods):
     import time
-    mods = sorted(local_closure(lean_mod, set()))
+    seen = set()
+    for m in lean_mods:
+        local_closure(m, seen)
+    mods = sorted(seen)
     t0 = time.time()
     try:
         with common.LeanLock():
@@ -157,6 +165,7 @@ def main():
         print(f'no check registered for {pid}', file=sys.stderr)
         return 2
     lean_mod = mod.LEAN_MODULE
+    lean_mods = [lean_mod] + list(getattr(mod, 'LEAN_EXTRA', []))     # further property files (Cxx B, C, ...) of the same property
     exe_name = 'pgmgen' if getattr(mod, 'NEEDS_GENERATED', False) else 'pgmdriver'
     exe_path = common.DRIVER_GEN if exe_name == 'pgmgen' else common.DRIVER
     broken = []           # broken obligations (names / descriptions)
@@ -169,20 +178,20 @@ def main():
                 broken.append({'theorem': None, 'stage': 'translate', 'detail': out[-1500:]})
         # 2. build
         if not args.no_build:
-            ok, out = build(lean_mod, exe_name)
+            ok, out = build(lean_mods, exe_name)
             if not ok:
                 errs = re.findall(r'error: ([^\n]+)', out)
                 broken.append({'theorem': None, 'stage': 'build', 'detail': '\n'.join(errs[:12]) or out[-1500:]})
-        thms = theorems_of(lean_mod)
+        thms = [t for m in lean_mods for t in theorems_of(m)]
         # 3. audit
         if not any(b['stage'] == 'build' for b in broken):
-            discharged, problems, axioms = audit(lean_mod, thms)
+            discharged, problems, axioms = audit(lean_mods, thms)
             res.extra['axioms'] = {t: axioms.get(t) for t in thms}
             for p in problems:
                 broken.append({'theorem': p, 'stage': 'audit', 'detail': p})
         # 3b. thorough tier: the toolchain's independent re-checker replays every compiled module the property depends on
         if tier == 'thorough' and not args.replay and not any(b['stage'] == 'build' for b in broken):
-            lc = leanchecker(lean_mod)
+            lc = leanchecker(lean_mods)
             res.extra['leanchecker'] = lc
             if not lc['ok']:
                 broken.append({'theorem': None, 'stage': 'leanchecker', 'detail': lc['detail']})
@@ -246,7 +255,7 @@ def main():
     # evidence
     cov = {
         'obligations': len(thms), 'discharged': len(discharged),
-        'checker_cmd': f'cd lean && lake build {lean_mod} && lake env lean .audit/Audit_{pid}.lean  (# print axioms of every property theorem)',
+        'checker_cmd': f'cd lean && lake build {" ".join(lean_mods)} && lake env lean .audit/Audit_{pid}.lean  (# print axioms of every property theorem)',
         'trusted_base': getattr(mod, 'TRUSTED', []),
         'theorems': thms,
         'evaluations': res.evaluations,
